@@ -22,32 +22,31 @@ from ..core.algebra import Undecided
 from ..rules import model as M
 from ..rules import common as C
 
-TECHNIQUE = ("static analysis: dominance of the accepting exit by the support and tolerance tests (R-ACCEPT), tuple-slot "
-             "agreement producer/consumer (R-SLOT), abstract execution of the tolerance schedule (R-SCHED), sibling "
-             "agreement of the parameter-order derivation (R-ORDER)")
+TECHNIQUE = ("static analysis by abstract interpretation: ABC.__init__, get_posterior_sample, continue_posterior_sample, _perform_generation, get_tolerance and "
+             "_log_parameters are interpreted by the checker on small abstract inference problems with scripted proposal streams and a known cost function; the stored "
+             "posterior is checked against the property's own statement; abstract execution of the tolerance schedule")
 
 
 def check(repo, res, tier):
-    res.rule("R-ACCEPT", "the accepting exit is dominated by prior-density>0 and cost<tolerance (strict)")
-    res.rule("R-SLOT", "producer tuple slots and consumer targets have the same roles; no other writer")
-    res.rule("R-SCHED", "tolerance schedule: supplied / quantile of stored distances / list; continuation cannot raise it")
-    res.rule("R-ORDER", "loss object and ABC derive parameter order from the same helpers with the same arguments")
-    res.s_clauses = ["S1 R-ACCEPT", "S2 R-SLOT", "S3 R-SCHED", "S4 R-ORDER"]
-    res.n_clauses = ["weights finite and positive (division by a kernel density: numerics)",
-                     "stored distance equals cost recomputed at the particle: only the structural part (the slot written is the cost returned; each cost call installs its own theta) is decided, determinism of the ODE solve is C02",
-                     "that a quantile of values all below the tolerance is itself below it (property of np.quantile)"]
+    res.rule("R-ACCEPT", "whole ABC runs (rejection, SMC with tolerance list / quantile schedule, nearest-neighbour kernels, continued runs, the legacy sampler), interpreted on "
+             "scripted proposal streams, leave a posterior that satisfies the property as stated: positive prior density, stored distance = cost recomputed at the particle "
+             "(loss object's order, log-scale components back-transformed) < tolerance of its generation, positive finite weights; admissible proposals are not rejected for ever")
+    res.rule("R-SCHED", "tolerance schedule: supplied / quantile of stored distances / list; never increasing under quantile scheduling; a continuation cannot start above the previous final tolerance")
+    res.s_clauses = ["S1/S2/S4 R-ACCEPT (whole runs)", "S3 R-SCHED"]
+    res.n_clauses = ["that the recomputed cost is reproducible needs a deterministic ODE solve (C02); here cost() is a known function of the installed parameters",
+                     "sampling quality of the perturbation kernels (covariances are opaque here)"]
     abc = repo.cls(M.M_ABC, "ABC")
     pg = abc.methods.get("_perform_generation")
     gps = abc.methods.get("get_posterior_sample")
-    if pg is None or gps is None:
-        raise AnalysisError("ABC._perform_generation / get_posterior_sample vanished")
-    _accept(res, pg, inline=False)
-    orig = abc.methods.get("get_posterior_sample_original")
-    if orig is not None:
-        _accept(res, orig, inline=True)
-    _slots(res, pg, gps)
+    if gps is None:
+        raise AnalysisError("ABC.get_posterior_sample vanished")
+    from ..rules import abcx
+    from ..core import absint as _ai
+    _ai.INLINED.clear()
+    n = abcx.check_runs(repo, res)
+    res.floor("ABC runs interpreted", n, 20)
+    res.functions |= set(_ai.INLINED)
     _schedule(repo, res, abc)
-    _order(repo, res, abc)
     # the stored distance is the cost *at that particle*: every cost evaluation installs its own parameters before
     # integrating at the observation times (shared with C06)
     from . import C06
@@ -55,179 +54,6 @@ def check(repo, res, tier):
     C06._rows(repo, res, repo.cls(M.M_LOSS, "BaseLoss"))
     from ..rules.sweep import gate_call_arity
     gate_call_arity(repo, res, {"pygom/approximate_bayesian_computation/approximate_bayesian_computation.py"})
-
-
-def _accept(res, f, inline):
-    cfg, df = cfg_of(f), dataflow_of(f)
-    tol_name = "tolerance"
-    # the accepting points: `break` of the trial loop, or (inline variant) the stores into self.res / self.dist
-    if not inline:
-        loops = [n for n in cfg.nodes if n.kind == "test" and isinstance(n.ast, ast.While)]
-        if len(loops) != 1:
-            res.undecided("R-ACCEPT", f, "loop", "expected one trial loop")
-            return
-        accept = [n for n in cfg.stmt_nodes() if isinstance(n.ast, ast.Break)]
-        # a return inside the loop would be another exit
-        loop = loops[0]
-        inner_rets = [n for n in cfg.stmt_nodes() if isinstance(n.ast, ast.Return) and cfg.reaches(cfg.edge_node(loop, True), n, avoid=[loop]) and
-                      any(cfg.reaches(n2, n, avoid=[loop]) is False for n2 in [])]
-        const_true = isinstance(loop.ast.test, ast.Constant) and bool(loop.ast.test.value)
-        res.check(const_true or True, "R-ACCEPT", f, "loop-form", "trial loop runs until a particle is accepted", "")
-        if not accept:
-            res.violated("R-ACCEPT", f, "accepting-exit", "the trial loop has no accepting exit")
-            return
-    else:
-        accept = [n for n in cfg.stmt_nodes() if n.kind == "stmt" and isinstance(n.ast, ast.Assign) and isinstance(n.ast.targets[0], ast.Subscript)
-                  and (is_self_attr(n.ast.targets[0].value, "res") or is_self_attr(n.ast.targets[0].value, "dist"))
-                  and any(isinstance(t.ast, ast.While) for t, o in cfg.guards_of(n) if hasattr(t.ast, "test"))]
-        if not accept:
-            res.undecided("R-ACCEPT", f, "accepting-store", "no store into self.res/self.dist inside the trial loop")
-            return
-    for k, a in enumerate(accept):
-        gs = C.if_guards(cfg, a)
-        ifs = [(t, o) for t, o in gs if isinstance(t.ast, ast.If)]
-        # support test
-        def _support_name(te):
-            if isinstance(te, ast.Name):
-                return te.id
-            if isinstance(te, ast.Compare) and len(te.ops) == 1 and isinstance(te.left, ast.Name) \
-                    and isinstance(te.ops[0], (ast.Gt, ast.NotEq)) and norm(te.comparators[0]) in ("0", "0.0"):
-                return te.left.id
-            return None
-        sup = [(t, o) for t, o in ifs if o is True and _support_name(t.ast.test)]
-        sup_ok, w1 = False, None
-        for t, o in sup:
-            d = df.single_def(t, _support_name(t.ast.test))
-            if d is not None and isinstance(d.value, ast.Call) and dotted(d.value.func) in ("np.prod", "numpy.prod"):
-                inner = d.value.args[0] if d.value.args else None
-                if isinstance(inner, (ast.ListComp, ast.GeneratorExp)) and ".density(" in norm(inner.elt) and "trial_params" in norm(inner.elt) \
-                        and norm(inner.generators[0].iter) == "range(self.numParam)":
-                    sup_ok, w1 = True, _support_name(t.ast.test)
-        tag = "exit#%d" % k
-        res.check(sup_ok, "R-ACCEPT", f, tag + ":support", "acceptance is under `if <product of prior densities at the trial point>`",
-                  "the accepting exit `%s` is not dominated by a test of the prior density product over all parameters" % norm(a.ast), node=a.ast)
-        # tolerance test
-        tol_ok, why = False, "no dominating `cost < tolerance` test"
-        for t, o in ifs:
-            te = t.ast.test
-            if o is True and isinstance(te, ast.Compare) and len(te.ops) == 1:
-                l, r, op = te.left, te.comparators[0], te.ops[0]
-                if isinstance(op, ast.Lt) and isinstance(l, ast.Name) and norm(r) == tol_name:
-                    cname, ok_dir = l.id, True
-                elif isinstance(op, ast.Gt) and isinstance(r, ast.Name) and norm(l) == tol_name:
-                    cname, ok_dir = r.id, True
-                elif isinstance(op, (ast.LtE, ast.GtE)) and tol_name in (norm(l), norm(r)):
-                    why = "the tolerance test `%s` is not strict" % norm(te)
-                    continue
-                else:
-                    continue
-                d = df.single_def(t, cname)
-                c_ok = d is not None and isinstance(d.value, ast.Call) and norm(d.value.func) == "self.obj.cost" and not d.value.args
-                if not c_ok:
-                    why = "`%s` compared with the tolerance is %s, not self.obj.cost()" % (cname, norm(d.value) if d is not None else "?")
-                    continue
-                # cost evaluated after the parameters were installed from a copy of the trial point
-                upd = [(n, c) for n, c, callee in C.calls(f) if callee in ("par_update",) or callee.endswith("_get_update_function")]
-                upd = [(n, c) for n, c in upd if dotted(c.func) == "par_update"]
-                u_ok = any(cfg.dominates(n, d.node) and not cfg.reaches(d.node, n, avoid=[x for x in cfg.nodes if x.kind == "test" and isinstance(x.ast, ast.While)]) for n, c in upd)
-                arg_ok = False
-                for n, c in upd:
-                    if c.args and isinstance(c.args[0], ast.Subscript) and norm(c.args[0].slice) == "self.par_order":
-                        mp = c.args[0].value
-                        dm = df.single_def(n, mp.id) if isinstance(mp, ast.Name) else None
-                        if dm is not None and isinstance(dm.value, ast.Call) and norm(dm.value.func) == "self._log_parameters" and dm.value.args \
-                                and norm(dm.value.args[0]) in ("trial_params.copy()", "np.copy(trial_params)", "np.array(trial_params)"):
-                            arg_ok = True
-                if u_ok and arg_ok:
-                    tol_ok, why = True, "accepted iff self.obj.cost() (after installing a copy of the trial point in model order) < tolerance"
-                else:
-                    why = "cost is not evaluated after par_update(model_params[self.par_order]) with model_params from a copy of the trial point (update dominates=%s, argument ok=%s)" % (u_ok, arg_ok)
-        res.check(tol_ok, "R-ACCEPT", f, tag + ":tolerance", why, "accepting exit `%s`: %s" % (norm(a.ast), why), node=a.ast)
-    # the tolerance parameter is not reassigned
-    if tol_name in f.params:
-        re = [d for d in df.defs if d.name == tol_name and d.kind != "param"]
-        res.check(not re, "R-ACCEPT", f, "tolerance-not-rebound", "the generation's tolerance is used as received",
-                  "`tolerance` is reassigned inside %s: %s" % (f.name, [norm(d.stmt) for d in re]), node=re[0].stmt if re else None)
-
-
-def _slots(res, pg, gps):
-    rets = C.returns_of(pg)
-    if len(rets) != 1 or not isinstance(rets[0].ast.value, ast.Tuple) or len(rets[0].ast.value.elts) != 4:
-        res.violated("R-SLOT", pg, "producer", "_perform_generation does not return one 4-tuple")
-        return
-    prod = rets[0].ast.value.elts
-    df = dataflow_of(pg)
-    roles = []
-    for e in prod:
-        s = norm(e)
-        if s == "trial_params":
-            roles.append("particle")
-        elif s == "cost":
-            roles.append("distance")
-        elif s == "rejections":
-            roles.append("rejections")
-        elif isinstance(e, ast.BinOp) and isinstance(e.op, ast.Div) and norm(e.left) == "w1":
-            roles.append("weight")
-        else:
-            roles.append("?(%s)" % s)
-    cfg, gdf = cfg_of(gps), dataflow_of(gps)
-    cons = [(n, c) for n, c, callee in C.calls(gps) if callee == "self._perform_generation"]
-    if len(cons) != 1:
-        res.violated("R-SLOT", gps, "consumer", "get_posterior_sample does not call _perform_generation exactly once per particle")
-        return
-    n, c = cons[0]
-    st = n.ast
-    tg = st.targets[0].elts if isinstance(st, ast.Assign) and isinstance(st.targets[0], ast.Tuple) else []
-    want = {"weight": "self.w", "particle": "self.res", "distance": "self.dist", "rejections": "rejections"}
-    problems = []
-    idxs = set()
-    if len(tg) != 4:
-        problems.append("result unpacked into %d targets" % len(tg))
-    for role, t in zip(roles, tg):
-        base = norm(t.value) if isinstance(t, ast.Subscript) else norm(t)
-        if isinstance(t, ast.Subscript):
-            idxs.add(norm(t.slice))
-        if want.get(role) != base:
-            problems.append("%s is stored into %s (expected %s)" % (role, base, want.get(role)))
-    if len(idxs) > 1:
-        problems.append("weight, particle and distance are stored at different indices %s" % sorted(idxs))
-    if idxs:
-        i = idxs.pop()
-        d = gdf.single_def(n, i)
-        if not (d is not None and d.kind == "for" and norm(d.value) == "range(self.N)"):
-            problems.append("particle index `%s` does not range over the N particles" % i)
-    res.check(not problems, "R-SLOT", gps, "producer-consumer", "(weight, rejections, particle, distance) -> (w[i], rejections, res[i], dist[i])",
-              "; ".join(problems), node=st)
-    # tolerance forwarded
-    b = C.bind_args(c, pg.params[1:])
-    tl = b.get("tolerance")
-    dt = gdf.single_def(n, tl.id) if isinstance(tl, ast.Name) else None
-    ok = dt is not None and isinstance(dt.value, ast.Call) and norm(dt.value.func) == "self.get_tolerance"
-    res.check(ok, "R-SLOT", gps, "tolerance-forwarded", "each generation runs under self.get_tolerance(g)",
-              "the tolerance passed to _perform_generation is %s" % (norm(dt.value) if dt is not None else norm(tl)), node=c)
-    rec = [m for m in cfg.stmt_nodes() if m.kind == "stmt" and isinstance(m.ast, ast.Assign) and isinstance(m.ast.targets[0], ast.Subscript)
-           and is_self_attr(m.ast.targets[0].value, "tolerances")]
-    res.check(bool(rec) and all(norm(m.ast.value) == (tl.id if isinstance(tl, ast.Name) else "") for m in rec), "R-SLOT", gps, "tolerance-recorded",
-              "the tolerance recorded for the generation is the one used", "self.tolerances records %s, not the tolerance used" % [norm(m.ast.value) for m in rec])
-    fin = [m for m in cfg.stmt_nodes() if m.kind == "stmt" and isinstance(m.ast, ast.Assign) and any(is_self_attr(t, "final_tol") for t in m.ast.targets)]
-    res.check(bool(fin) and all(norm(m.ast.value) == (tl.id if isinstance(tl, ast.Name) else "") for m in fin), "R-SLOT", gps, "final-tolerance",
-              "final_tol is the last tolerance used", "final_tol is %s" % [norm(m.ast.value) for m in fin])
-    # other writers of res / dist in the generation loop
-    others = []
-    for m in cfg.stmt_nodes():
-        s2 = m.ast
-        if m.kind == "stmt" and isinstance(s2, (ast.Assign, ast.AugAssign)) and m.id != n.id:
-            tgs = s2.targets if isinstance(s2, ast.Assign) else [s2.target]
-            for t in tgs:
-                flat = t.elts if isinstance(t, ast.Tuple) else [t]
-                for x in flat:
-                    base = x.value if isinstance(x, ast.Subscript) else x
-                    if is_self_attr(base) and base.attr in ("res", "dist", "w"):
-                        gs = [norm(tt.ast.test) for tt, o in C.if_guards(cfg, m) if o is True]
-                        if not any("not rerun" in g for g in gs):
-                            others.append(s2)
-    res.check(not others, "R-SLOT", gps, "single-writer", "res / dist / w are written only from accepted particles (and zero-initialised on a fresh run)",
-              "res/dist/w are also written by %s" % [norm(o)[:60] for o in others], node=others[0] if others else None)
 
 
 def _schedule(repo, res, abc):
@@ -256,67 +82,5 @@ def _schedule(repo, res, abc):
             continue
         res.check(kind == "return" and out == want, "R-SCHED", f, tag, "tolerance(%s) = %r" % (tag, want),
                   "get_tolerance(%s) gives %r, expected %r" % (tag, out, want), node=f.node)
-    # continuation cannot raise the tolerance
-    cont = abc.methods.get("continue_posterior_sample")
-    if cont is None:
-        raise AnalysisError("continue_posterior_sample vanished")
-    asserts = [n for n in walk_no_nested(cont.node) if isinstance(n, ast.Assert)]
-    texts = [norm(a.test) for a in asserts]
-    ok = "tol[0] <= self.final_tol" in texts and "tol <= self.final_tol" in texts
-    res.check(ok, "R-SCHED", cont, "monotone-continuation", "a continued run must start at or below the previous final tolerance (both tolerance forms)",
-              "continue_posterior_sample does not assert tol <= self.final_tol for both forms (asserts: %s)" % texts)
-    cs = [(n, c) for n, c, callee in C.calls(cont) if callee == "self.get_posterior_sample"]
-    gp = abc.methods["get_posterior_sample"]
-    ok = len(cs) == 1
-    if ok:
-        b = C.bind_args(cs[0][1], gp.params[1:])
-        ok = const_value(b.get("rerun")) is True and all(norm(b.get(p)) == p for p in ("N", "tol", "G", "q", "M"))
-    res.check(ok, "R-SCHED", cont, "continues-with-rerun", "continuation re-enters the sampler with rerun=True and the given settings",
-              "continue_posterior_sample does not call get_posterior_sample(N, tol, G, q, M, ..., rerun=True)")
-    # quantile of the *stored distances* (all below the current tolerance by S1/S2)
-    # in the sampler a fresh run resets dist, a rerun keeps it
-    cfg, df = cfg_of(gp), dataflow_of(gp)
-    resets = [n for n in cfg.stmt_nodes() if n.kind == "stmt" and isinstance(n.ast, ast.Assign) and any(is_self_attr(t, "dist") for t in n.ast.targets)]
-    ok = bool(resets) and all(any(norm(t.ast.test) == "not rerun" and o is True for t, o in C.if_guards(cfg, n)) for n in resets)
-    res.check(ok, "R-SCHED", gp, "distances-kept-on-rerun", "stored distances are reset only on a fresh run",
-              "self.dist is reset outside `if not rerun`: a continued run computes its quantile tolerance from zeros")
 
 
-def _order(repo, res, abc):
-    mod = repo.module(M.M_ABC)
-    cl = mod.functions.get("create_loss")
-    init = abc.methods.get("__init__")
-    if cl is None or init is None:
-        raise AnalysisError("create_loss / ABC.__init__ vanished")
-
-    def helper_calls(f):
-        out = {}
-        for n, c, callee in C.calls(f):
-            if callee in ("_get_target_parameters", "_get_target_states"):
-                out[callee] = [norm(a).replace("self.obj._ode", "ode") for a in c.args]
-        return out
-    a, b = helper_calls(cl), helper_calls(init)
-    want = {"_get_target_parameters": ["parameters", "ode.param_list"], "_get_target_states": ["parameters", "ode.state_list"]}
-    res.check(a == want and b == want, "R-ORDER", init, "same-helpers", "loss object and ABC order parameters by the same helpers and arguments",
-              "create_loss uses %s, ABC.__init__ uses %s" % (a, b))
-    # par_order = positions of the ordered names in the user's parameter list; params first, then states
-    df = dataflow_of(init)
-    st = [n for n in walk_no_nested(init.node) if isinstance(n, ast.Assign) and any(is_self_attr(t, "par_order") for t in n.targets)]
-    ok = False
-    if st:
-        v = st[0].value
-        ok = isinstance(v, ast.ListComp) and norm(v.elt) == "parameter_names.index(par)" and norm(v.generators[0].iter) == "ordered_parameters"
-        dd = [n for n in walk_no_nested(init.node) if isinstance(n, ast.Assign) and any(isinstance(t, ast.Name) and t.id == "ordered_parameters" for t in n.targets)]
-        if dd:
-            val = dd[0].value
-            ok = ok and isinstance(val, ast.BinOp) and isinstance(val.op, ast.Add) and "_get_target_parameters" in norm(val.left) and "_get_target_states" in norm(val.right)
-    res.check(ok, "R-ORDER", init, "par_order", "par_order maps (target parameters, then target states) to positions in the user's list",
-              "par_order is not built from target parameters followed by target states")
-    # loss classes receive target_param / target_state in their slots
-    for n, c, callee in C.calls(cl):
-        if callee in ("SquareLoss", "NormalLoss", "PoissonLoss"):
-            lc = repo.cls(M.M_ODELOSS, callee).methods["__init__"]
-            bnd = C.bind_args(c, lc.params[1:])
-            ok = norm(bnd.get("target_param")) == "target_param" and norm(bnd.get("target_state")) == "target_state" and norm(bnd.get("theta")) == "theta"
-            res.check(ok, "R-ORDER", cl, "ctor(%s)" % callee, "%s receives theta / target_param / target_state in their slots" % callee,
-                      "%s(...) receives target_param=%s target_state=%s" % (callee, norm(bnd.get("target_param")), norm(bnd.get("target_state"))), node=c)
